@@ -145,8 +145,17 @@ theorem cWrite_len (cx : Cx) (Γ : Gam) (pc o : Nat) (e : E) :
     (cWrite cx Γ pc o e).length = lenWrite cx.checked e := by
   simp [cWrite, lenWrite, pushE_len]; omega
 
-theorem cS_len (cx : Cx) (s : S) : ∀ (Γ : Gam) (pc o : Nat),
-    (cS cx Γ pc o s).length = lenS cx.checked s := by
+theorem cArgs_len (cx : Cx) (Γ : Gam) (args : List E) : ∀ (pc o : Nat), (cArgs cx Γ pc o args).length = lenArgs cx.checked args := by
+  induction args with
+  | nil => intros; rfl
+  | cons e es ih => intro pc o; simp [cArgs, lenArgs, pushE_len, ih]
+
+theorem cCall_len (cx : Cx) (fa : FAddr) (Γ : Gam) (pc o : Nat) (g : String) (args : List E) :
+    (cCall cx fa Γ pc o g args).length = lenCall cx.checked args := by
+  simp [cCall, lenCall, cArgs_len]; omega
+
+theorem cS_len (cx : Cx) (fa : FAddr) (s : S) : ∀ (Γ : Gam) (pc o : Nat),
+    (cS cx fa Γ pc o s).length = lenS cx.checked s := by
   induction s with
   | nil => intros; rfl
   | ret => intros; rfl
@@ -174,5 +183,14 @@ theorem cS_len (cx : Cx) (s : S) : ∀ (Γ : Gam) (pc o : Nat),
   | tryUndo body handler k ihb ihh ihk =>
     intro Γ pc o
     simp [cS, lenS, ihb, ihh, ihk]; omega
+  | retE e =>
+    intro Γ pc o
+    have := gV_len cx Γ pc o cx.r0 e
+    rcases hg : gV cx Γ pc o cx.r0 e with ⟨c, v⟩
+    rw [hg] at this
+    simp [cS, hg, lenS] at this ⊢; omega
+  | callS g args k ih => intro Γ pc o; simp [cS, lenS, cCall_len, ih]
+  | declCall x g args k ih => intro Γ pc o; simp [cS, lenS, cCall_len, ih]
+  | assignCall x g args k ih => intro Γ pc o; simp [cS, lenS, cCall_len, ih]; omega
 
 end HidVerif.Core
